@@ -145,7 +145,7 @@ TRANSLATE = os.path.join(VERIF, "translate")
 GEN_DIR = os.path.join(LEAN, "GoSSE", "Gen")
 GEN_EQUIV = "GoSSE.Proofs.GenEquiv"
 GEN_EQUIV_MODS = ["GoSSE.Proofs.GenEquiv", "GoSSE.Proofs.GenEquivQueue", "GoSSE.Proofs.GenEquivFields",
-                  "GoSSE.Proofs.GenEquivScan", "GoSSE.Proofs.GenEquivWrite", "GoSSE.Proofs.GenEquivReplay",
+                  "GoSSE.Proofs.GenEquivScan", "GoSSE.Proofs.GenEquivWrite", "GoSSE.Proofs.GenEquivEncode", "GoSSE.Proofs.GenEquivReplay",
                   "GoSSE.Proofs.GenEquivUnmarshal", "GoSSE.Proofs.GenEquivEvent"]
 GEN_MODS = ["Parser", "Root", "Bufio", "Fields", "Write", "Replay", "Unmarshal", "Event"]   # in import order
 
